@@ -170,11 +170,11 @@ Proof.
     apply Ht; clear Ht.
     + assert (ET : HA * B k + val k a0 - (B k - 1) * (val k b1 * B k + val k b0)
                    = (val k a1 + val k b1) * B k + val k a0 - (B k - 1) * val k b0) by (subst HA; rewrite E2; ring).
-      rewrite ET. clear - L1 Ra0 Ra1 Rb0 Rb1 HB. split; nia.
-    + intros _.
+      rewrite ET. clear - L1 Ra0 Ra1 Rb0 Rb1 HB Hnorm. split; nia.
+    + intros Hr. subst r. cbn [b2z] in Ec.
       assert (ET : HA * B k + val k a0 - (B k - 1) * (val k b1 * B k + val k b0)
                    = (val k a1 + val k b1) * B k + val k a0 - (B k - 1) * val k b0) by (subst HA; rewrite E2; ring).
-      rewrite ET. clear - Ra0 Ra1 Rb0 Rb1 HB Hnorm. nia.
+      rewrite ET. clear - Ra0 Ra1 Rb0 Rb1 HB Ec Rcc. nia.
 Qed.
 
 Lemma div21_step_ok k d32 : div32_ok k d32 -> div21_ok (S k) (div21_step k d32).
